@@ -20,7 +20,7 @@ of each round from it.  This file shows, for *any* region type `ρ` and any orac
 namespace VOPy.Core
 open VOPy VOPy.Steps VOPy.Accuracy
 
-variable {ρ : Type}
+variable {ρ X : Type}
 
 /-- the region table the decision phases of round `t` see (after `modeling()` of that round) -/
 def pavebaRegs (K : Nat) (dom cov : ρ → ρ → Bool) (init : Nat → ρ) (fresh : Nat → Nat → ρ)
@@ -89,18 +89,19 @@ theorem pavebaRegs_inactive (t i : Nat)
 
 end
 
-/-- **Valid displayed regions give sound computed oracles.**  `memb a x` is "the point `x` lies in
-the region `a`", `wf a` "the region is well formed and non-degenerate"; `domR y x` stands for
+/-- **Valid displayed regions give sound computed oracles.**  Points are of an arbitrary type `X`
+(rational vectors for the executable statements, real vectors in `Proofs/IntegrationReal.lean`);
+`memb a x` is "the point `x` lies in the region `a`", `wf a` "the region is well formed and non-degenerate"; `domR y x` stands for
 "`y` dominates `x`" and `goodR x y` for "`y` does not exceed `x` beyond the tolerance".  The four
 geometric facts are what C09 / C10 give for the executable predicates. -/
-theorem pavebaCore_roundSound (dom cov : ρ → ρ → Bool) (memb : ρ → Vec → Prop) (wf : ρ → Prop)
-    (domR goodR : Vec → Vec → Prop)
+theorem pavebaCore_roundSound (dom cov : ρ → ρ → Bool) (memb : ρ → X → Prop) (wf : ρ → Prop)
+    (domR goodR : X → X → Prop)
     (hds : ∀ a b x y, wf a → wf b → memb a x → memb b y → dom a b = true → domR y x)
     (hdt : ∀ a b c y, wf a → wf b → wf c → memb b y → dom a b = true → dom b c = true →
       dom a c = true)
     (hdi : ∀ a, wf a → dom a a = false)
     (hcs : ∀ a b x y, wf a → wf b → memb a x → memb b y → cov a b = false → goodR x y)
-    (K : Nat) (mu : Nat → Vec) (init : Nat → ρ) (fresh : Nat → Nat → ρ) (T : Nat)
+    (K : Nat) (mu : Nat → X) (init : Nat → ρ) (fresh : Nat → Nat → ρ) (T : Nat)
     (hvalid : ∀ r, r < T → ∀ i,
       (i ∈ (pavebaCore K dom cov init fresh r).S ∨ i ∈ (pavebaCore K dom cov init fresh r).U) →
       wf (fresh r i) ∧ memb (fresh r i) (mu i)) :
